@@ -5,29 +5,31 @@
 ID="$1"; MODE="$2"; FILE="$3"
 case "$FILE" in /*|"") ;; *) FILE="$(pwd)/$FILE" ;; esac
 export GOFLAGS=-mod=mod GOPROXY=off GOSUMDB=off GOTOOLCHAIN=local
-export VERIF_ROOT=/verif
-cd /verif/harness || exit 2
+# the directory this script lives in (normally /verif; a snapshot worktree when started through `vp run`)
+VERIF_ROOT="$(cd "$(dirname "$0")" && pwd)"
+export VERIF_ROOT
+cd "$VERIF_ROOT/harness" || exit 2
 case "$MODE" in
   quick|thorough) export VERIF_TIER="$MODE" ;;
   replay) ;;
   *) echo "usage: run.sh <Cxx> quick|thorough|replay [file]" >&2; exit 2 ;;
 esac
-mkdir -p /verif/bin /verif/.work
-BIN=/verif/bin/vcheck
+mkdir -p $VERIF_ROOT/bin $VERIF_ROOT/.work
+BIN=$VERIF_ROOT/bin/vcheck
 (
   flock 9
   cmp -s /repo/go.sum go.sum || cp /repo/go.sum go.sum
   case "$ID" in
     C01)
       # environment exploration needs the consensus-profile overlay generated from the current tree
-      /verif/tools/build_vcheck_i.sh ;;
+      $VERIF_ROOT/tools/build_vcheck_i.sh ;;
     C20)
-      go build -o /verif/bin/vcheck ./cmd/vcheck && /verif/tools/build_vsched.sh ;;
+      go build -o $VERIF_ROOT/bin/vcheck ./cmd/vcheck && $VERIF_ROOT/tools/build_vsched.sh ;;
     *)
-      go build -o /verif/bin/vcheck ./cmd/vcheck ;;
+      go build -o $VERIF_ROOT/bin/vcheck ./cmd/vcheck ;;
   esac
-) 9>/verif/.work/build.lock || { echo "HARNESS: build of the checker against /repo failed" >&2; exit 2; }
-[ "$ID" = C01 ] && BIN=/verif/bin/vcheck-i
+) 9>"$VERIF_ROOT/.work/build.lock" || { echo "HARNESS: build of the checker against /repo failed" >&2; exit 2; }
+[ "$ID" = C01 ] && BIN=$VERIF_ROOT/bin/vcheck-i
 if [ "$MODE" = replay ]; then
   exec $BIN "$ID" --replay "$FILE"
 fi
